@@ -6,8 +6,9 @@ structural part is which value is returned under which test:
  (Q2) on the `MoveCursor::After` arm the result is the `index` field of the element found for the cursor's op id — and nothing
       computed from it;
  (Q3) on the `MoveCursor::Before` arm an `index` field of a found element is returned only on the true edge of that element's
-      `visible` flag or of `index == 0` (a deleted element's own index is *not* the answer: the walk continues to its
-      predecessor), and the constant 0 only when the walk ran off the front (`None`);
+      `visible` flag, of `index == 0`, or of "the element now at that index is still the cursor's element" (a deleted element's own
+      index is *not* the answer: the walk continues to its predecessor), and the constant 0 only when the walk ran off the
+      front (`None`);
  (Q4) every lookup in the two cursor functions uses the caller's clock (no literal None) and the object resolved from the
       caller's object id; the cursor's op id is resolved by `op_cursor_to_opid`;
  (Q5) `get_cursor_for` builds the cursor from the *last* op found at the requested index (the visible winner of that element),
@@ -61,6 +62,7 @@ def run(ctx):
     ctx.rule("Q2", "MoveCursor::After arm: the Ok payload is the .index field of the FoundOpId found for the cursor's op id")
     ctx.rule("Q3", "MoveCursor::Before arm: Ok(.index of F) is edge-dominated by F.visible == true or F.index == 0; Ok(0) by the None arm of the walk's lookup")
     ctx.rule("Q4", "provenance: clock and object arguments of every lookup derive from the parameters; the op id from op_cursor_to_opid")
+    ctx.rule("Q6", "sibling agreement of seek_list_opid's indexed and walking paths: `visible` is op-level visibility in both (index.visible, never index.top; membership by op id, not whole-op equality), and the walking path answers Some whenever the op is in the object")
     ctx.rule("Q5", "get_cursor_for: OpCursor::new(id of found.ops.last(), .., move_cursor parameter); Start -> Cursor::Start, End -> Cursor::End")
     f = ctx.facts()
     b = ctx.body(POS)
@@ -93,6 +95,31 @@ def run(ctx):
                 o = b.origin(pl[0]["l"], tuple(pl[0]["p"]))
                 if o[1] and o[1][-1] == ".index" and FOUND in b.local_ty(o[0]):
                     zero_edges.setdefault((o[0], tuple(o[1][:-1])), []).extend(bool_true_edges(b, sb, sw, src["negated"]))
+    # "the element now at F.index is still the cursor's element": a bool computed from seek_ops_by_index(.., F.index, ..) and a comparison
+    # of elemid_or_key (through Option::is_some_and / map + ==)
+    present_edges = {}
+    present_false = []
+    for sb, sw in b.switches():
+        src = b.bool_operand_source(sw["op"])
+        if not src or src["kind"] != "call":
+            continue
+        t = src["t"]
+        pv = b.provenance(t["args"][0], through_calls=True) if t.get("args") else None
+        if pv is None or not any((norm_fn(c) or "").endswith("OpSet::seek_ops_by_index") for c in pv.callees()):
+            continue
+        cmp_elem = False
+        for cl in b.provenance(t["args"][1], through_calls=False).closures if len(t["args"]) > 1 else ():
+            r = f.fns.get(cl)
+            if r is not None:
+                names = [(norm_fn(tt.get("fn")) or "").split("::")[-1] for _, tt in f.calls(r)]
+                cmp_elem = names.count("elemid_or_key") >= 2 and ("eq" in names or "ne" in names)
+        if not cmp_elem:
+            continue
+        for l, pr in pv.places:
+            o = b.origin(l, pr)
+            if o[1] and o[1][-1] == ".index" and FOUND in b.local_ty(o[0]):
+                present_edges.setdefault((o[0], tuple(o[1][:-1])), []).extend(bool_true_edges(b, sb, sw, src["negated"]))
+                present_false.extend(bool_true_edges(b, sb, sw, not src["negated"]))
     none_walk = []
     for sb, sw in b.switches():
         src = b.bool_operand_source(sw["op"])
@@ -129,13 +156,21 @@ def run(ctx):
                 own = any(norm_fn(c_) == AM + "::op_cursor_to_opid" for c_ in pvF.callees())
                 ctx.ob("Q2", k + "|After", own, st["sp"], "index of the element found for the cursor's op id" if own else "the After arm returns the index of an element that was not looked up by the cursor's op id")
             else:
-                allowed = vis_edges.get(F, []) + zero_edges.get(F, [])
+                allowed = vis_edges.get(F, []) + zero_edges.get(F, []) + present_edges.get(F, [])
                 ok = on(before_e) and bool(allowed) and b.edges_dominate(allowed, bi)
-                ctx.ob("Q3", k + "|Before", ok, st["sp"], "behind visible == true (or index == 0) of the same element" if ok else
+                ctx.ob("Q3", k + "|Before", ok, st["sp"], "behind visible == true, index == 0, or `the element at that index is still the cursor's element`" if ok else
                        "on the Before arm the index of an element is returned without that element being visible (or first): a deleted element's own index is not its nearest surviving predecessor")
             continue
         ctx.ob("Q2", k + "|payload", False, st["sp"], "the position returned is computed (not a found element's index, the length or 0): %s" % (o,))
     ctx.floor("element indexes returned by get_cursor_position_for", n_idx, 3)
+    # the predecessor walk starts only when the cursor's element is really gone: an element whose value was overwritten by a later put
+    # is still visible although the cursor's own op is not
+    walk = [(bi, t) for bi, t in b.calls() if callee(t) == SEEK and not any(norm_fn(c_) == AM + "::op_cursor_to_opid" for c_ in b.provenance(t["args"][2], through_calls=True, stop=lambda rec: callee(rec) == SEEK).callees())]
+    ctx.floor("predecessor lookups of the Before walk", len(walk), 1)
+    for k, (bi, t) in util.ordinal_keys(walk, lambda it: "get_cursor_position_for|Before walk"):
+        ok = bool(present_false) and b.edges_dominate(present_false, bi)
+        ctx.ob("Q3", k + "|only when the element is gone", ok, t["sp"], "behind `element at that index is still the cursor's element` == false" if ok else
+               "the Before walk to the predecessor starts because the cursor's *op* is invisible, without checking that its *element* is gone: a cursor on a value later overwritten by put resolves to the previous element")
     # ---------------- Q4
     n_c = 0
     for fn in (POS, GET):
@@ -190,3 +225,29 @@ def run(ctx):
         ok = by_index and last and pm.depends_on_param(mv_p[0]) and not pm.aggs
         ctx.ob("Q5", k, ok, t["sp"], "id of the last op found at the index; the caller's MoveCursor" if ok else
                "the cursor is not built from the last op at the requested index with the caller's MoveCursor (by index %s, last %s, move from parameter %s)" % (by_index, last, pm.depends_on_param(mv_p[0])))
+
+    # ---------------- Q6
+    OS = "automerge::op_set2::op_set::OpSet::"
+    fb = ctx.body(OS + "seek_list_opid_fast")
+    sl = ctx.body(OS + "seek_list_opid_slow")
+    ctx.analysed_fns.update([OS + "seek_list_opid_fast", OS + "seek_list_opid_slow"])
+    aggs = [(bi, st) for bi, blk in enumerate(fb.blocks) for st in blk["st"] if st["rv"]["k"] == "Agg" and (st["rv"].get("adt") or "") == FOUND]
+    ctx.floor("FoundOpId constructions in seek_list_opid_fast", len(aggs), 1)
+    for k, (bi, st) in util.ordinal_keys(aggs, lambda it: "seek_list_opid_fast|visible"):
+        rv = st["rv"]
+        pv = fb.provenance(rv["o"][rv["fields"].index("visible")], through_calls=True)
+        flds = {"".join(e for e in fb.origin(l, pr)[1] if e.startswith(".")) for l, pr in pv.places}
+        from_top = any(".index.top" in x for x in flds)
+        from_vis = any(".index.visible" in x for x in flds)
+        ctx.ob("Q6", k, from_vis and not from_top, st["sp"], "from the visible index (op-level), as the walking path" if from_vis and not from_top else
+               "the indexed path takes `visible` from the top index (is the op the winner of its element) while the walking path reports op-level visibility: they disagree on a value that lost to a concurrent put (debug_assert in seek_list_opid; a Before cursor resolves to 0)")
+    nones = [st["sp"] for bi, blk in enumerate(sl.blocks) if not blk.get("cleanup") for st in blk["st"]
+             if st["d"]["l"] == 0 and not st["d"]["p"] and st["rv"]["k"] == "Agg" and st["rv"].get("adt") == "core::option::Option" and st["rv"].get("variant") == "None"]
+    ctx.ob("Q6", "seek_list_opid_slow|None only when the op is not in the object", not nones, (nones or [sl.rec["sp"]])[0],
+           "the only None is the `?` on the op lookup" if not nones else
+           "the walking path answers None although the op was found (nothing visible at or after it): the indexed path answers Some(op, length), so a cursor on a deleted tail element is an InvalidCursor at older heads")
+    whole = [t["sp"] for bi, t in sl.calls() if (norm_fn(t.get("fn")) or "").endswith("::contains") and "op::Op<" in " ".join(t.get("ga", []))]
+    for r in f.closures_of(OS + "seek_list_opid_slow"):
+        pass
+    ctx.ob("Q6", "seek_list_opid_slow|membership by op id", not whole, (whole or [sl.rec["sp"]])[0], "compares ids" if not whole else
+           "membership of the op among the element's visible ops is tested with whole-op equality: ops kept by scope_to_clock are adjusted copies, so at given heads a visible op is reported invisible")
